@@ -69,7 +69,7 @@ type vfWorld struct {
 	needBlk bool // request kind needs the block check (inbox POST)
 
 	// configuration
-	authMode    int // 0 ok, 1 denied, 2 error
+	authMode    int // 0 ok, 1 denied, 2 error, 3 error with the (ignored) flag true
 	blockMode   int // 0 not blocked, 1 blocked, 2 error
 	onFollow    OnFollowBehavior
 	cbMode      int // 0 no app callbacks, 1 wrapped callbacks, 2 'other' overriding callbacks
@@ -538,6 +538,9 @@ func (a *vfApp) auth(kind string, c context.Context, rw http.ResponseWriter) (co
 		return c, false, nil
 	case 2:
 		return c, false, vfErrFault
+	case 3:
+		// an error together with authenticated == true: the flag is documented to be ignored then
+		return c, true, vfErrFault
 	}
 	w.authed = true
 	return c, true, nil
